@@ -2,3 +2,6 @@ import PdProps.C19
 import PdProps.C02
 import PdProps.C05
 import PdProps.C17
+import PdProps.C13
+import PdProps.C16
+import PdProps.C07
